@@ -166,6 +166,7 @@ func runC18(r *Run, verifDir string) {
 	c.x1Ranges()
 	c.x1ParserDomain()
 	c.x4BinaryReaderTotal()
+	c.x5TextVerbatim()
 	c.x2WriterPanics()
 	c.l1Hex("C18.X3")
 	c.l2Base("C18.X3")
@@ -218,6 +219,17 @@ func (c *lexCtx) l1Hex(rule string) {
 				return
 			}
 			w, found := narrowestUse(call, 0)
+			// quantities narrower than their Go carrier: a tag is a 24-bit quantity written with all its bits (%06X)
+			if qw := quantityWidth(fn); qw > 0 {
+				need := qw
+				if id.name == "ParseInt" {
+					need = qw + 1 // a signed parse on N bits accepts N-1 value bits
+				}
+				if bits < need {
+					r.Bad(rule, key, call.Pos(), "a %d-bit quantity spelled in hexadecimal is parsed with strconv.%s(_, 16, %d): values with the top bit set (0x%X and above) are written by the writers but rejected on reading", qw, id.name, bits, int64(1)<<(qw-1))
+					return
+				}
+			}
 			if id.name == "ParseUint" {
 				r.OK(rule, key, call.Pos(), "hex parsed unsigned on %d bits", bits)
 				return
@@ -1350,4 +1362,103 @@ func possibleConsts(v ssa.Value, depth int) ([]int64, bool) {
 		out = append(out, ks...)
 	}
 	return out, len(out) > 0
+}
+
+
+// quantityWidth: the width in bits of the KMIP quantity a text-reader method parses, when it is narrower than the
+// Go integer carrying it (0 otherwise): item tags are three bytes.
+func quantityWidth(fn *ssa.Function) int64 {
+	top := fn
+	for top.Parent() != nil {
+		top = top.Parent()
+	}
+	id := idOf(top)
+	if (id.recv == "xmlReader" || id.recv == "jsonReader") && id.name == "Tag" {
+		return 24
+	}
+	return 0
+}
+
+// ---------------------------------------------------------------- X5 (C18)
+
+// x5TextVerbatim: a text string is handed back exactly as it was spelled: the value returned by the XML/JSON
+// TextString readers derives from the input without passing through a string-transforming call (the writers emit the
+// string verbatim, so a reader that trims or folds it accepts an input that does not re-encode to itself).
+func (c *lexCtx) x5TextVerbatim() {
+	r := c.r
+	r.Rule("C18.X5", "text strings are read back verbatim: no strings.* transformation between the input and the value returned by TextString", 2)
+	for _, recv := range []string{"xmlReader", "jsonReader"} {
+		fn := c.p.Func("ttlv", recv, "TextString")
+		key := "ttlv." + recv + ".TextString/verbatim"
+		if fn == nil {
+			r.Unk("C18.X5", key, token.NoPos, "anchor missing")
+			continue
+		}
+		bad := ""
+		var origin func(v ssa.Value, d int)
+		seen := map[ssa.Value]bool{}
+		origin = func(v ssa.Value, d int) {
+			if d > 8 || seen[v] || bad != "" {
+				return
+			}
+			seen[v] = true
+			switch x := v.(type) {
+			case *ssa.Call:
+				id := callID(&x.Call)
+				switch {
+				case id.pkg == "strings" || id.pkg == "bytes" || id.pkg == "unicode" || id.pkg == "regexp":
+					bad = id.String()
+				case x.Call.StaticCallee() != nil && strings.HasPrefix(id.pkg, modPath) && x.Call.StaticCallee().Blocks != nil:
+					sc := x.Call.StaticCallee()
+					for _, b := range sc.Blocks {
+						if ret, ok := b.Instrs[len(b.Instrs)-1].(*ssa.Return); ok {
+							for _, rv := range ret.Results {
+								if bt, ok := rv.Type().Underlying().(*types.Basic); ok && bt.Info()&types.IsString != 0 {
+									origin(rv, d+1)
+								}
+							}
+						}
+					}
+				}
+			case *ssa.Phi:
+				for _, e := range x.Edges {
+					origin(e, d+1)
+				}
+			case *ssa.Extract:
+				origin(x.Tuple, d+1)
+			case *ssa.TypeAssert:
+				origin(x.X, d+1)
+			case *ssa.ChangeType:
+				origin(x.X, d+1)
+			case *ssa.Convert:
+				origin(x.X, d+1)
+			case *ssa.BinOp:
+				if x.Op == token.ADD {
+					bad = "string concatenation"
+				}
+			case *ssa.Slice:
+				bad = "substring"
+			}
+		}
+		n := 0
+		for _, b := range fn.Blocks {
+			ret, ok := b.Instrs[len(b.Instrs)-1].(*ssa.Return)
+			if !ok || len(ret.Results) != 2 {
+				continue
+			}
+			if k, isC := ret.Results[0].(*ssa.Const); isC && k.Value != nil && k.Value.ExactString() == `""` {
+				continue
+			}
+			n++
+			origin(ret.Results[0], 0)
+		}
+		switch {
+		case bad != "":
+			r.Bad("C18.X5", key, fn.Pos(), "%s.TextString returns a value that went through %s: the writers emit text strings verbatim, so an accepted string with (for instance) leading or trailing white space re-encodes to a different string", recv, bad)
+		case n == 0:
+			r.Unk("C18.X5", key, fn.Pos(), "no success return found")
+		default:
+			r.OK("C18.X5", key, fn.Pos(), "%d success return(s): the string is the input's, untouched", n)
+		}
+	}
 }
